@@ -203,7 +203,71 @@ def probe_files(events):
     main.main_with_args = main_with_args
 
 
+def _canon(x, depth=0):
+    """Canonical, order-insensitive-for-dicts text of plain data; objects by class name and public vars."""
+    if depth > 12:
+        return "<deep>"
+    if isinstance(x, dict):
+        return "{" + ",".join("%s:%s" % (_canon(k, depth + 1), _canon(v, depth + 1))
+                              for k, v in sorted(x.items(), key=lambda kv: str(kv[0]))) + "}"
+    if isinstance(x, (list, tuple)):
+        return "[" + ",".join(_canon(v, depth + 1) for v in x) + "]"
+    if isinstance(x, (str, int, float, bool)) or x is None:
+        return repr(x)
+    if isinstance(x, (set, frozenset)):
+        return "{" + ",".join(sorted(_canon(v, depth + 1) for v in x)) + "}"
+    d = getattr(x, "__dict__", None)
+    if d is not None and depth < 4:
+        return type(x).__name__ + _canon({k: v for k, v in d.items() if not k.startswith("_")}, depth + 1)
+    return "<%s>" % type(x).__name__
+
+
+def registry_digests():
+    """Digest of every process-wide registry the emitters read."""
+    import hashlib
+    from shroud import typemap, statements, whelpers, wrapc, wrapp, wrapl
+
+    regs = {}
+
+    def put(name, obj):
+        regs[name] = hashlib.sha1(_canon(obj).encode("utf-8", "replace")).hexdigest()[:16]
+
+    for mod, name in ((typemap, "shared_typedict"), (statements, "fc_statements"), (statements, "cf_tree"),
+                      (statements, "fc_dict"), (wrapp, "py_statements"), (wrapp, "py_tree"), (wrapl, "lua_statements"),
+                      (wrapl, "lua_tree"), (whelpers, "CHelpers"), (whelpers, "FHelpers"), (whelpers, "PyHelpers")):
+        if hasattr(mod, name):
+            put("%s.%s" % (mod.__name__.split(".")[-1], name), getattr(mod, name))
+    for name in ("capsule_code", "capsule_order", "capsule_include"):
+        if name in vars(wrapc.Wrapc):
+            put("Wrapc." + name, vars(wrapc.Wrapc)[name])
+    return regs
+
+
+def probe_registry(events):
+    """Registry digests when generation starts (after the per-run initialisation) and when a run ends."""
+    from shroud import generate, main
+
+    o_gen = generate.generate_functions
+
+    def generate_functions(library, config):
+        events.append({"e": "registries", "at": "after_init", "lib": library.library, "regs": registry_digests()})
+        return o_gen(library, config)
+
+    generate.generate_functions = generate_functions
+    main.generate.generate_functions = generate_functions
+    o_main = main.main_with_args
+
+    def main_with_args(args):
+        try:
+            return o_main(args)
+        finally:
+            events.append({"e": "registries", "at": "run_end", "regs": registry_digests()})
+
+    main.main_with_args = main_with_args
+
+
 PROBES = {
+    "registry": probe_registry,
     "files": probe_files,
     "linewrap": probe_linewrap,
     "splicer": probe_splicer,
